@@ -317,7 +317,8 @@ impl Fs {
             let entries: BTreeMap<String, Ent> = match mode {
                 0 => dir.entries.clone(),
                 1 => dir.synced.clone(),
-                _ => {
+                m if m % 2 == 0 => {
+                    // MIX: a prefix of this directory's unsynced entry operations (what a journaling FS produces)
                     let mut e = dir.synced.clone();
                     let n = rng.usize(dir.pending.len() + 1);
                     for op in &dir.pending[..n] {
@@ -327,6 +328,29 @@ impl Fs {
                             }
                             DirOp::Del(k) => {
                                 e.remove(k);
+                            }
+                        }
+                    }
+                    e
+                }
+                _ => {
+                    // SUB: every NAME independently keeps a prefix of its own unsynced operations ("directory entries
+                    // not yet fsynced present or absent", entry by entry — the weakest reading of POSIX)
+                    let mut e = dir.synced.clone();
+                    let mut names: Vec<&String> = dir.pending.iter().map(|op| match op { DirOp::Set(k, _) | DirOp::Del(k) => k }).collect();
+                    names.sort();
+                    names.dedup();
+                    for name in names {
+                        let ops: Vec<&DirOp> = dir.pending.iter().filter(|op| match op { DirOp::Set(k, _) | DirOp::Del(k) => k == name }).collect();
+                        let n = rng.usize(ops.len() + 1);
+                        for op in &ops[..n] {
+                            match op {
+                                DirOp::Set(k, v) => {
+                                    e.insert(k.clone(), v.clone());
+                                }
+                                DirOp::Del(k) => {
+                                    e.remove(k);
+                                }
                             }
                         }
                     }
@@ -613,7 +637,8 @@ pub fn crashcheck(args: &Args) -> i32 {
                 let mname = match mode {
                     0 => "ALL",
                     1 => "MIN",
-                    _ => "MIX",
+                    m if m % 2 == 0 => "MIX",
+                    _ => "SUB",
                 };
                 let exercise = rng.chance(1, 4);
                 let v = check_image(&c.cfg, &img, &keys, &acceptable, exercise);
